@@ -332,6 +332,70 @@ def r32(facts, res):
             res.bad(R, 'row:' + k, loc_of(b, bb), 'no path implements this row')
 
 
+def r33_combinator(facts, res, b, R):
+    """The production-precedence search written as `symbols.iter().rev().find_map(|s| token name)` followed by a lookup of that
+    one name.  Decided: the iterator searched is reversed; the find_map closure answers Some on every path on which its argument
+    is a token (so the first token met ends the search whether or not it has a precedence); a lookup in the precedence table
+    exists in the function or its closures.  Returns (block of the find_map call, blocks to treat as the search)."""
+    sym = facts.adt('cfgrammar::yacc::ast::Symbol')
+    tok = [v['discr'] for v in (sym or {}).get('variants', []) if v['name'] == 'Token']
+    cands = []
+    for nm in ('find_map', 'find', 'rfind', 'position', 'rposition'):
+        for bb, t in b.calls_named(nm):
+            st = callee_of(t).get('self_ty') or ''
+            if 'ast::Symbol' in st and 'slice::iter::Iter<' in st:
+                cands.append((nm, bb, t, st))
+    if len(cands) != 1 or not tok:
+        res.lost(R, 'expected exactly one search over a production\'s symbols that looks a token up in the precedence table (a loop, or one find_map), found %d' % len(cands))
+        return None
+    nm, bb, t, st = cands[0]
+    if nm != 'find_map':
+        res.lost(R, 'the production precedence search uses Iterator::%s, an idiom this rule does not know' % nm)
+        return None
+    if 'rev::Rev<' in st:
+        res.ok(R, 'search-direction', loc_of(b, bb), 'symbols are searched from the end (find_map over Rev<slice::Iter<Symbol>>): the last token decides')
+    else:
+        res.bad(R, 'search-direction', loc_of(b, bb), 'production precedence search iterates %s: Yacc takes the precedence of the LAST token' % st)
+    # the closure handed to find_map
+    cl = None
+    l = op_local(t['args'][1]) if len(t['args']) > 1 else None
+    for _bb, kind, rv in b.defs().get(l, ()):
+        if kind == 'stmt' and 'agg' in rv and isinstance(rv['agg'], dict) and 'closure' in rv['agg']:
+            cl = facts.bodies.get(rv['agg']['closure'])
+    if cl is None:
+        res.lost(R, 'cannot find the body of the closure handed to find_map')
+        return None
+    wk = Walker(cl, facts)
+    paths = wk.run()
+    bad = None
+    ntok = 0
+    for p in paths:
+        if p.end[0] != 'return':
+            continue
+        is_tok = any(term[0] == 'discr' and isinstance(val, int) and val == tok[0] and 'param' in repr(term) for term, val in p.conds)
+        if not is_tok:
+            continue
+        ntok += 1
+        rv = p.end[1]
+        if not (rv[0] == 'variant' and rv[3] == 'Some'):
+            bad = p
+    if ntok == 0:
+        res.lost(R, 'the find_map closure has no path that recognises a token')
+        return None
+    if bad is not None:
+        res.bad(R, 'last-token-decides', loc_of(cl), 'the find_map closure can answer None for a token (path through blocks %s): the search then continues to earlier symbols, '
+                'but a token without precedence must still end the search' % bad.blocks)
+    else:
+        res.ok(R, 'last-token-decides', loc_of(cl), 'the find_map closure answers Some on each of its %d token paths: the first token met (from the end) ends the search whether or not it has a precedence' % ntok)
+    gets = [(x, t2) for x, t2 in b.calls_named('get') if 'Precedence' in ''.join(callee_of(t2)['args'])]
+    for c in facts.closures_of(b):
+        gets += [(x, t2) for x, t2 in c.calls_named('get') if 'Precedence' in ''.join(callee_of(t2)['args'])]
+    if not gets:
+        res.lost(R, 'no lookup of the token found in the precedence table')
+        return None
+    return bb, {bb}
+
+
 def r33(facts, res):
     R = 'R3.3'
     b = facts.one(R, 'YaccGrammar::new_from_ast_with_validity_info', crate='cfgrammar',
@@ -357,24 +421,33 @@ def r33(facts, res):
         gets = [(bb, t2) for bb, t2 in b.calls_named('get', region) if 'Precedence' in ''.join(callee_of(t2)['args'])]
         if gets:
             found.append((own, region, [(nb, t)], gets))
-    if len(found) != 1:
+    if not found:
+        # the same search written with iterator combinators: find_map over the production's symbols
+        comb = r33_combinator(facts, res, b, R)
+        if comb is None:
+            return
+        h, body = comb
+        search_entry = h
+    elif len(found) != 1:
         res.lost(R, 'expected exactly one loop over a production\'s symbols that looks a token up in the precedence table, found %d' % len(found))
         return
-    h, body, nexts, gets = found[0]
-    nx = nexts[0][1]
-    self_ty = callee_of(nx).get('self_ty') or ''
-    if 'rev::Rev<' in self_ty and 'slice::iter::Iter<' in self_ty:
-        res.ok(R, 'search-direction', loc_of(b, nexts[0][0]), 'symbols are searched from the end (Rev<slice::Iter<Symbol>>): the last token decides')
     else:
-        res.bad(R, 'search-direction', loc_of(b, nexts[0][0]),
-                'production precedence search iterates %s: Yacc takes the precedence of the LAST token' % self_ty)
-    gb = gets[0][0]
-    inside = b.reachable(b.succs(gb), avoid=headers - {h})
-    if h in inside:
-        res.bad(R, 'last-token-decides', loc_of(b, gb), 'after looking at a token the search continues to earlier symbols: a token without precedence must still end the search')
-    else:
-        res.ok(R, 'last-token-decides', loc_of(b, gb), 'the first token met (from the end) ends the search whether or not it has a precedence')
-    body = loops[h] | body
+        h, body, nexts, gets = found[0]
+        search_entry = h
+        nx = nexts[0][1]
+        self_ty = callee_of(nx).get('self_ty') or ''
+        if 'rev::Rev<' in self_ty and 'slice::iter::Iter<' in self_ty:
+            res.ok(R, 'search-direction', loc_of(b, nexts[0][0]), 'symbols are searched from the end (Rev<slice::Iter<Symbol>>): the last token decides')
+        else:
+            res.bad(R, 'search-direction', loc_of(b, nexts[0][0]),
+                    'production precedence search iterates %s: Yacc takes the precedence of the LAST token' % self_ty)
+        gb = gets[0][0]
+        inside = b.reachable(b.succs(gb), avoid=headers - {h})
+        if h in inside:
+            res.bad(R, 'last-token-decides', loc_of(b, gb), 'after looking at a token the search continues to earlier symbols: a token without precedence must still end the search')
+        else:
+            res.ok(R, 'last-token-decides', loc_of(b, gb), 'the first token met (from the end) ends the search whether or not it has a precedence')
+        body = loops[h] | body
     # %prec: a lookup `precs[name]` (Index::index on the precs map) exists outside the loop and is control dependent
     # on the discriminant of the AST production's `precedence` field
     idx = [(bb, t) for bb, t in b.calls_named('index') if 'Precedence' in ''.join(callee_of(t)['args']) and bb not in body]
@@ -384,9 +457,9 @@ def r33(facts, res):
         res.ok(R, 'prec-override', loc_of(b, idx[0][0]), '%prec name is looked up in the precedence table')
         # the override must exclude the search: the search loop header is not reachable from the override lookup
         # without passing the per-production loop header
-        outer = [h2 for h2, bd in loops.items() if h in bd and h2 != h]
+        outer = [h2 for h2, bd in loops.items() if search_entry in bd and h2 != search_entry]
         avoid = set(outer)
-        if h in b.reachable([idx[0][0]], avoid=avoid):
+        if search_entry in b.reachable([idx[0][0]], avoid=avoid):
             res.bad(R, 'prec-override-exclusive', loc_of(b, idx[0][0]), 'the token search still runs after a %prec override')
         else:
             res.ok(R, 'prec-override-exclusive', loc_of(b, idx[0][0]), 'the token search is skipped when %prec is given')
